@@ -214,10 +214,18 @@ def main():
         for nm in sorted(used_lemmas):
             obligs.append(Oblig(f"{prop}/lemma/{nm}", [], _lm.abstract_goal(nm), "lemma", "abstract lemma instantiated as a proof hint"))
     results = discharge_all(obligs + covers, timeout_ms, cover_timeout_ms=3000) if obligs else {}
+    exit_covers = {}
     for name in [n for n in results if "/cover/" in n]:
         for r in results.pop(name):
-            if r["verdict"] == "unsat":
+            if "/cover/assumptions-consistent-at-exit-" in name:
+                # must-fail canary: a single exit path may be infeasible without harm (branches are taken when a quick feasibility
+                # test cannot refute them); the contract is vacuous only if NO recorded exit of the variant is consistent
+                exit_covers.setdefault((name.rsplit("-", 1)[0], r["note"]), []).append(r["verdict"])
+            elif r["verdict"] == "unsat":
                 errors.append(f"{name}: contradictory precondition / vacuous contract ({r['note']})")
+    for (name, variant), verdicts in sorted(exit_covers.items()):
+        if all(v_ == "unsat" for v_ in verdicts):
+            errors.append(f"{name}: the assumptions collected along every recorded exit path are contradictory: vacuous proof ({variant})")
 
     # ---------------------------------------------------------------- induction lemmas: schemas checked by Lean
     lean_map = {"tree_induction": ("Lemmas.lean", ["tree_induction", "all_nodes_below_root"]), "count-of-a-singleton-mask": ("Lemmas.lean", ["count_singleton"]),
